@@ -658,6 +658,70 @@ def rule_sample_count(eng, rep, A, rule="C02-6.sample-count"):
     rep.require_count(rule, "max(nsamples(..),1) origins", n_max, 3)      # x0, the main loop, a helper (today 27 copies)
 
 
+def rule_nsamples_is_asked_the_documented_question(eng, rep, rule="C02-6b.nsamples-callback-is-called-with-delta-rho-iteration-restarts"):
+    """'each point gets exactly the number of samples the nsamples callback asked for': the callback is documented as nsamples(delta, rho, iter, nrestarts).
+    Every call of that role passes four positional arguments, in this order: a trust-region radius (a `.delta` field, or the initial radius before the controller
+    exists), the lower bound on it (a `.rho` field, or the initial radius), the iteration counter (a local that is only ever set to a literal and stepped by one, or
+    the literal 0 before the first iteration) and the run counter handed to solve_main -- no arithmetic on any of them.  25 call sites today: the sibling sites must
+    agree, a swapped pair answers a different question and the point gets a different number of samples than the user's schedule prescribes."""
+    from .common import arg_of
+    sm = eng.fn("solver.solve_main")
+    solve = eng.fn("solver.solve")
+    run_params = set()
+    for ci in eng.calls_in(solve):
+        if any(t.fid == sm.fid for t in ci.targets):
+            b = bind_call(ci.node, sm, False)
+            for pn, e in b.params.items():
+                if isinstance(e, ast.Name) and e.id == "nruns":
+                    run_params.add(pn)
+    rhobeg_names = {"rhobeg"}
+    n = 0
+    for fi in eng.prog.functions.values():
+        for ci in eng.calls_in(fi):
+            if not (ci.role and "nsamples" in ci.role.split("|")):
+                continue
+            node = ci.node
+            n += 1
+            site = eng.where(fi, node)
+            if len(node.args) != 4 or node.keywords or any(isinstance(a, ast.Starred) for a in node.args):
+                rep.bad(rule, site, "%s|nsamples-arity|%s" % (fi.fid, short(node, 40)), "`%s`: the callback is documented with four positional arguments (delta, rho, iter, nrestarts)" % short(node))
+                continue
+            cfg = eng.cfg(fi)
+            a0, a1, a2, a3 = node.args
+            probs = []
+            if not ((isinstance(a0, ast.Attribute) and a0.attr == "delta") or (isinstance(a0, ast.Name) and a0.id in rhobeg_names)):
+                probs.append("first argument `%s` is not a trust-region radius (.delta)" % short(a0, 30))
+            if not ((isinstance(a1, ast.Attribute) and a1.attr == "rho") or (isinstance(a1, ast.Name) and a1.id in rhobeg_names)):
+                probs.append("second argument `%s` is not the lower bound on the radius (.rho)" % short(a1, 30))
+            ok2 = const_value(a2) == 0
+            if isinstance(a2, ast.Name) and a2.id not in run_params:
+                defs = cfg.defs_reaching(eng.prog.stmt_of(node) if cfg.has_ast(eng.prog.stmt_of(node)) else node, a2.id) if hasattr(cfg, "has_ast") else None
+                if defs is None:
+                    try:
+                        defs = cfg.defs_reaching(node, a2.id)
+                    except Exception:
+                        defs = []
+                kinds = []
+                for dn in defs:
+                    ds = cfg.ast_of(dn)
+                    if isinstance(ds, ast.Assign) and const_value(ds.value) is not None:
+                        kinds.append(True)
+                    elif isinstance(ds, ast.AugAssign) and isinstance(ds.op, ast.Add) and const_value(ds.value) == 1:
+                        kinds.append(True)
+                    else:
+                        kinds.append(False)
+                ok2 = bool(kinds) and all(kinds)
+            if not ok2:
+                probs.append("third argument `%s` is not the iteration counter" % short(a2, 30))
+            if not (isinstance(a3, ast.Name) and (a3.id in run_params or fi.fid != sm.fid and a3.id in fi.all_params)):
+                probs.append("fourth argument `%s` is not the run counter handed to solve_main (%s)" % (short(a3, 30), "/".join(sorted(run_params))))
+            if probs:
+                rep.bad(rule, site, "%s|nsamples-arguments|%s" % (fi.fid, short(node, 60)), "`%s`: %s" % (short(node, 70), "; ".join(probs)))
+            else:
+                rep.ok(rule, site, "nsamples(delta, rho, iteration, restarts) in the documented order", nontrivial=False)
+    rep.require_count(rule, "calls of the nsamples callback", n, 3)
+
+
 def run(eng, rep):
     rep.explain("C02: objfun has one call site (T1); in every function that evaluates, each path reaches the call in typestate "
                 "guard(NF<MAXFUN)->one NF increment->call (T3, set-of-states data-flow over the CFG); solve_main's unguarded x0 evaluation is covered "
@@ -674,3 +738,4 @@ def run(eng, rep):
     rep.guarded(rule_stale_locals, eng, rep, A, nfw, nxw)
     rep.guarded(rule_point_numbering, eng, rep, A)
     rep.guarded(rule_sample_count, eng, rep, A)
+    rep.guarded(rule_nsamples_is_asked_the_documented_question, eng, rep)
